@@ -23,7 +23,7 @@ from harness import servers, scenario, reset
 
 ID = 'C17'
 LEVEL = 'model_checking'
-TOK_A = ['R', 'W', 'C', 'E2', 'E3', 'E1', 'D', 'I', 'UA']
+TOK_A = ['R', 'W', 'C', 'E2', 'E3', 'E1', 'D', 'I', 'UA', 'I0']
 TIDS = [1, 0xFFFF, 0]
 FRONTS_FOR = {}
 for _f, (_k, _frs) in servers.FRONTS.items():
@@ -32,7 +32,7 @@ for _f, (_k, _frs) in servers.FRONTS.items():
 
 
 # ------------------------------------------------------------------ (a) equivalence
-def run_history(front, framing, cfg, seq):
+def run_history(front, framing, cfg, seq, delivery='whole'):
     ctx, ref, real = scenario.build(cfg)
     reset.set_identity([(0, 'Vendor'), (1, 'PC'), (2, 'V2.11')])
     srv = servers.Server(front, framing, ctx, ignore_missing_slaves=cfg.ignore)
@@ -40,7 +40,17 @@ def run_history(front, framing, cfg, seq):
     outs = []
     for i, tok in enumerate(seq):
         unit, m = scenario.token(tok, i, cfg)
-        outs.append(tuple(conn.run_script([scenario.frame(framing, unit, TIDS[i % 3], m)])))
+        f = scenario.frame(framing, unit, TIDS[i % 3], m)
+        script = [f]
+        if delivery == 'split-idle' and servers.FRONTS[front][0] == 'stream':
+            # the request arrives in two reads after the line has been idle (the blocking front-ends see a read
+            # time-out first); a datagram front-end always gets the whole request
+            cut = len(f) // 2 + (i % 2)
+            script = [f[:cut], f[cut:]]
+            if front in ('sync-tcp', 'sync-serial'):
+                import socket
+                script = [socket.timeout('timed out')] + script
+        outs.append(tuple(conn.run_script(script)))
     d = scenario.dumps(real)
     esc = [type(e).__name__ for _, e in srv.escaped]
     srv.shutdown()
@@ -64,25 +74,32 @@ def shard_equiv(args):
                     k += 1
                     if k % parts != part:
                         continue
-                    res = [(f, run_history(f, framing, cfg, seq)) for f in fronts]
-                    acc.inc('transitions', len(seq) * len(fronts))
-                    acc.inc('evaluations')
-                    base_f, base = res[0]
-                    for f, r in res[1:]:
-                        what = None
-                        if r[0] != base[0]:
-                            what = 'bytes-differ'
-                        elif r[1] != base[1]:
-                            what = 'store-differs'
-                        elif r[2] != base[2]:
-                            what = 'escape-differs'
-                        if what:
-                            i = next((j for j in range(len(seq)) if r[0][j] != base[0][j]), len(seq) - 1)
-                            acc.violation('C17/%s~%s/%s/%s/%s/%s' % (base_f, f, framing, what, cfg.mode, seq[i]),
-                                          dict(part='equiv', framing=framing, fronts=[base_f, f], cfg=[single, list(units), False, ign], seq=list(seq)),
-                                          '%s vs %s: %r / %r' % (base_f, f, [x.hex() for x in base[0][i]], [x.hex() for x in r[0][i]]), framing)
-                    if any(len(o) for o in base[0]):
-                        acc.inc('histories_with_replies')
+                    for delivery in (('whole', 'split-idle') if framing != 'tls' and n <= 2 else ('whole',)):
+                        res = [(f, run_history(f, framing, cfg, seq, delivery)) for f in fronts]
+                        acc.inc('transitions', len(seq) * len(fronts))
+                        acc.inc('evaluations')
+                        base_f, base = res[0]
+                        if delivery != 'whole':
+                            res = [('whole-delivery', whole_base)] + res          # and the same bytes as when each request came in one read
+                            base_f, base = res[0]
+                        else:
+                            whole_base = base
+                        for f, r in res[1:]:
+                            what = None
+                            if r[0] != base[0]:
+                                what = 'bytes-differ'
+                            elif r[1] != base[1]:
+                                what = 'store-differs'
+                            elif r[2] != base[2]:
+                                what = 'escape-differs'
+                            if what:
+                                i = next((j for j in range(len(seq)) if r[0][j] != base[0][j]), len(seq) - 1)
+                                acc.violation('C17/%s~%s/%s/%s/%s/%s' % (base_f, f, framing, what, cfg.mode, seq[i]) + ('' if delivery == 'whole' else '/' + delivery),
+                                              dict(part='equiv', framing=framing, fronts=[base_f, f], cfg=[single, list(units), False, ign], seq=list(seq),
+                                                   **({} if delivery == 'whole' else dict(delivery=delivery))),
+                                              '%s vs %s: %r / %r' % (base_f, f, [x.hex() for x in base[0][i]], [x.hex() for x in r[0][i]]), framing)
+                        if any(len(o) for o in base[0]):
+                            acc.inc('histories_with_replies')
     acc.inc('states', k // parts)
     acc.add('nontrivial', ('equiv', framing))
     return acc
@@ -350,8 +367,12 @@ def replay(w):
     acc = Acc()
     if w['part'] == 'equiv':
         cfg = scenario.Cfg(*w['cfg'])
-        a = run_history(w['fronts'][0], w['framing'], cfg, tuple(w['seq']))
-        b = run_history(w['fronts'][1], w['framing'], cfg, tuple(w['seq']))
+        dl = w.get('delivery', 'whole')
+        if w['fronts'][0] == 'whole-delivery':
+            a = run_history(FRONTS_FOR[w['framing']][0], w['framing'], cfg, tuple(w['seq']))
+        else:
+            a = run_history(w['fronts'][0], w['framing'], cfg, tuple(w['seq']), dl)
+        b = run_history(w['fronts'][1], w['framing'], cfg, tuple(w['seq']), dl)
         return a != b, '%s: %r\n%s: %r' % (w['fronts'][0], [[x.hex() for x in o] for o in a[0]], w['fronts'][1], [[x.hex() for x in o] for o in b[0]])
     if w['part'] in ('isolation', 'burst'):
         a2 = shard_isolation((w['front'], w['framing'], 2))
